@@ -176,13 +176,13 @@ fn pre_for(site: Site, pos: usize) -> Vec<Pre> {
 
 pub fn run(ctx: &Ctx) -> i32 {
     let mut report = ctx.report("C20", "exploration");
-    report.rule = "all 256 result codes x 14 abort sites {commit / cancel of one transaction while another one stays open, read_card, begin (reservation), commit (partial reversal), cancel (pre-auth reversal), configure: system info / set terminal id / initialization / reversal of a dangling pre-authorisation / end-of-day, end-of-day inside commit and inside cancel, reversal of a dangling pre-authorisation inside commit} x position of the abort in the reply script {first reply, after 1, 2, 3 intermediate statuses, after a status information (for a reservation: one already carrying a receipt number), after a receipt-less status information whose own result code (BMP 27) is 05 / FC / 64 / 6C}; and every (code, site) again with a connection fault (close / garbage) at the acknowledgement of the first attempt of that exchange, so that the abort answers the client's retry; and for read_card every code again arriving only after the terminal's own card time-out (read_card_timeout in {0,1,15,253,254,255} s plus 0.1-1.9 s, inside the client's grace period). Oracle: the call fails and the error identifies c (ZVTError::Aborted(c) in the chain, or the text contains the specification's message for c from an independently typed table, or c as a hex/decimal token); exactly three translations: read_card+6C -> NoCardPresented, reservation+FC -> NeedsPinEntry, end-of-day+A0 -> tolerated (the caller's own result stands). Duplicate-free enumeration; non-trivial = every case.".into();
+    report.rule = "all 256 result codes x 14 abort sites {commit / cancel of one transaction while another one stays open, read_card, begin (reservation), commit (partial reversal), cancel (pre-auth reversal), configure: system info / set terminal id / initialization / reversal of a dangling pre-authorisation / end-of-day, end-of-day inside commit and inside cancel, reversal of a dangling pre-authorisation inside commit} x position of the abort in the reply script {first reply, after 1, 2, 3 intermediate statuses, after a status information (for a reservation: one already carrying a receipt number), after a receipt-less status information whose own result code (BMP 27) is 05 / FC / 64 / 6C, and (end-of-day / partial-reversal / pre-auth-reversal sites) the abort in its long form carrying a receipt number 4711 / FFFF}; and every (code, site) again with a connection fault (close / garbage) at the acknowledgement of the first attempt of that exchange, so that the abort answers the client's retry; and for read_card every code again arriving only after the terminal's own card time-out (read_card_timeout in {0,1,15,253,254,255} s plus 0.1-1.9 s, inside the client's grace period). Oracle: the call fails and the error identifies c (ZVTError::Aborted(c) in the chain, or the text contains the specification's message for c from an independently typed table, or c as a hex/decimal token); exactly three translations: read_card+6C -> NoCardPresented, reservation+FC -> NeedsPinEntry, end-of-day+A0 -> tolerated (the caller's own result stands). Duplicate-free enumeration; non-trivial = every case.".into();
     report.exhaustive = Some(true);
     report.assumptions = vec!["the pending query is answered by the terminal with an abort-shaped packet by protocol design (2.10.1) and is not an abort site; aborts during the handshake are connection failures (C09)".into()];
     assert_eq!(SPEC_MESSAGES.len(), 79);
     let schema = Arc::new(refcodec::zvt_schema());
     let threads = ctx.threads;
-    let positions: Vec<usize> = vec![0, 1, 2, 3, 4, 5, 6, 7, 8];
+    let positions: Vec<usize> = vec![0, 1, 2, 3, 4, 5, 6, 7, 8, 9, 10];
     sharded(&mut report, threads, |shard, r| {
         let mut k = 0usize;
         for site in SITES {
@@ -229,10 +229,18 @@ fn one(r: &mut Report, schema: &Arc<refcodec::layout::Schema>, site: Site, code:
 fn one_at(r: &mut Report, schema: &Arc<refcodec::layout::Schema>, site: Site, code: u8, pos: usize, prior_fault: Option<FaultKind>, late: Option<(u8, u64)>) {
     let mut sc = Scenario::default();
     let pre = pre_for(site, pos);
-    if pre.is_empty() && pos != 0 {
+    if pre.is_empty() && pos != 0 && pos < 9 {
         return; // position not applicable to this site
     }
     let mut abort = ExPlan { pre, result: ExResult::Abort(code), ..ExPlan::default() };
+    // positions 9 / 10 (end-of-day and reversal sites): the abort in its long form, carrying a receipt number (BMP 87:
+    // a pre-authorisation the terminal names / FFFF) - the code is still the operation's result
+    if pos == 9 || pos == 10 {
+        if !matches!(site, Site::ConfigureEndOfDay | Site::CommitEndOfDay | Site::CancelEndOfDay | Site::Commit | Site::Cancel | Site::CommitOtherOpen | Site::CancelOtherOpen | Site::ConfigureDanglingReversal | Site::CommitDanglingReversal) {
+            return;
+        }
+        abort = ExPlan { pre: vec![], result: ExResult::AbortWithReceipt(code, Some(if pos == 9 { 4711 } else { 0xffff })), ..ExPlan::default() };
+    }
     if let Some((rc, extra_ms)) = late {
         sc.cfg.read_card_timeout = rc;
         abort.silent_ms = rc as u64 * 1000 + extra_ms;
